@@ -123,6 +123,29 @@ func C13(c *Ctx) {
 			}
 		}
 	}
+	// ... or that reads the flag / builds an EmailVerify at all: the wiring then has
+	// to show an alternative that carries the verification (a wiring in which the
+	// flag-dependent part never reaches the route has no such alternative)
+	flagReader := map[*ssa.Function]bool{}
+	for _, rt := range routes {
+		if flagAware[rt.In] || flagReader[rt.In] || !strings.HasPrefix(pkgOf(rt.In), "ab/otp/twofactor") {
+			continue
+		}
+		for _, b := range rt.In.Blocks {
+			for _, in := range b.Instrs {
+				switch x := in.(type) {
+				case *ssa.FieldAddr:
+					if fieldName(x) == "TwoFactorEmailAuthRequired" {
+						flagReader[rt.In] = true
+					}
+				case ssa.CallInstruction:
+					if Callee(x) == "ab/otp/twofactor.SetupEmailVerify" {
+						flagReader[rt.In] = true
+					}
+				}
+			}
+		}
+	}
 	var table []string
 	n2fa := 0
 	for _, rt := range routes {
@@ -135,6 +158,22 @@ func C13(c *Ctx) {
 		}
 		rname := rt.Method + " " + rt.Path
 		pos := posf(c, rt.Call)
+		// some way of wiring this route carries the e-mail authorisation (the
+		// registrations of one path may be several: code behind a join of two
+		// wirings is analysed once per wiring)
+		someEmail := false
+		for _, o := range routes {
+			if o.In != rt.In || o.Method != rt.Method || o.Path != rt.Path {
+				continue
+			}
+			for _, alt := range o.Alts {
+				for _, w := range alt.Wrappers {
+					if w.Kind == "EmailVerify.Wrap" {
+						someEmail = true
+					}
+				}
+			}
+		}
 		for _, alt := range rt.Alts {
 			if alt.Unknown != "" || alt.Inner == nil {
 				r.Unknown("C13.route", FuncName(rt.In), rname, pos, "handler expression not resolved: "+alt.Unknown)
@@ -209,6 +248,21 @@ func C13(c *Ctx) {
 				}
 				if !isRemove {
 					r.Check(hasEmail, "C13.email-route", FuncName(rt.In), key, pos, "enrolment route carries EmailVerify.Wrap when e-mail authorisation is required", "enrolment route lacks EmailVerify.Wrap although TwoFactorEmailAuthRequired is set")
+				}
+			}
+			// the Setup function reads the flag (or builds an EmailVerify) but the
+			// alternatives of this route are told apart by something else — a field of
+			// a local struct that is nil unless the flag is set — or not at all: one of
+			// them at least has to carry the wrap
+			if (len(sens) > 0 || enrol) && !flagAware[rt.In] && flagReader[rt.In] && !strings.Contains(conds, "TwoFactorEmailAuthRequired") {
+				isRemove := false
+				for _, s := range sens {
+					if v, isC := ConstStr(Arg(s, 0)); isC && v == "" {
+						isRemove = true
+					}
+				}
+				if !isRemove {
+					r.Check(someEmail, "C13.email-route", FuncName(rt.In), key, pos, "some wiring of the enrolment route carries EmailVerify.Wrap", "the module sets up the e-mail authorisation but no wiring of this enrolment route carries EmailVerify.Wrap: with TwoFactorEmailAuthRequired set the route is reachable without the e-mailed token")
 				}
 			}
 		}
